@@ -300,13 +300,61 @@ CompB(c) ==
            rows |-> [i \in 1..4 |-> <<pts[i][1] * Km, 500 * Km, HM - pts[i][2] * Km, pts[i][2] * Km,
                                        IF pts[i][3] THEN Dec(sgn * 25, -2) ELSE Dec(0, 0), IF pts[i][3] THEN Dec(sgn * 75, -2) ELSE Dec(0, 0), Dec(0, 0)>>]] >>)
 
+(*************************** tian2019 water content ****************************)
+(* Beyond the models C05 lists: the bound-water parameterisation of Tian et   *)
+(* al. (2019) as the oceanic plate and the subducting plate offer it.  The    *)
+(* model's documentation fixes everything but the polynomials themselves:     *)
+(* lithostatic pressure density * 9.81 * depth in GPa, never below 0.5 GPa,   *)
+(* never above the cut-off pressure; the temperature is the finished world's  *)
+(* temperature at the point; the result is capped by the initial water        *)
+(* content and converted from wt% to a fraction.  The polynomials (ln c_sat   *)
+(* in P - in log10 P for sediment -, ln LR in 1/P, T_d in P) are tables of    *)
+(* this module.  Deviations of this family are reported as information, not   *)
+(* as violations of C05.                                                      *)
+(*******************************************************************************)
+Pow(x, y) == Bin("pow", x, y)
+Ln(x) == Un("log", x)
+Poly(cs, x) == [op |-> "sum", l |-> [i \in 1..Len(cs) |-> Mul(cs[i], Pow(x, Len(cs) - i))]]
+Lithologies == <<"peridotite", "gabbro", "MORB", "sediment">>
+LRPoly == << <<Dec(-190609, -4), Dec(168983, -3), Dec(-630032, -3), Dec(128184, -2), Dec(-154314, -2), Dec(111188, -2), Dec(-459142, -3), Dec(954143, -4), Dec(197246, -5)>>,
+             <<Dec(-181745, -5), Dec(767198, -5), Dec(-108507, -4), Dec(509329, -5), Dec(814519, -5)>>,
+             <<Dec(-178177, -5), Dec(750871, -5), Dec(-104840, -4), Dec(519725, -5), Dec(796365, -5)>>,
+             <<Dec(-203283, -5), Dec(108186, -4), Dec(-212119, -4), Dec(183351, -4), Dec(-648711, -5), Dec(832459, -5)>> >>
+CSatPoly == << <<Dec(115628, -8), Dec(242179, -5)>>,
+               <<Dec(-176673, -7), Dec(893044, -7), Dec(152732, -5)>>,
+               <<Dec(102725, -7), Dec(-115390, -6), Dec(324452, -6), Dec(141588, -5)>>,
+               <<Dec(-150662, -6), Dec(301807, -6), Dec(101867, -5)>> >>
+TdPoly == << <<Dec(-154627, -4), Dec(949716, -4), Dec(636603, -3)>>,
+             <<Dec(-172277, -5), Dec(205898, -4), Dec(637517, -3)>>,
+             <<Dec(-381280, -5), Dec(227809, -4), Dec(638049, -3)>>,
+             <<Dec(283277, -5), Dec(-247593, -4), Dec(859090, -4), Dec(524898, -3)>> >>
+TianCase == [type : {"oceanic plate", "subducting plate"}, lith : 1..4, temp : {600, 950}, w0 : {5, 1}, cut : {4, 26}, op : {"replace", "add", "replace defined only"}]
+TianB(c) ==
+  LET rho == 3100
+      p == MaxT(Dec(5, -1), MinT(Div(Mul(Mul(rho, Dec(981, -2)), D), 1000000000), c.cut))
+      lncsat == Poly(CSatPoly[c.lith], IF c.lith = 4 THEN Div(Ln(p), Ln(10)) ELSE p)
+      lnlr == Poly(LRPoly[c.lith], Div(1, p))
+      td == Poly(TdPoly[c.lith], p)
+      water == Div(MinT(c.w0, Mul(Exp(lncsat), Exp(Mul(Exp(lnlr), Sub(Div(1, c.temp), Div(1, td)))))), 100)
+      want == IF c.op = "add" THEN Add(Dec(25, -2), water) ELSE water
+      before == CUniformF(<<1>>, <<Dec(25, -2)>>, "replace")
+      tian == ("model" :> "tian water content") @@ ("compositions" :> <<1>>) @@ ("lithology" :> Lithologies[c.lith]) @@ ("density" :> rho)
+              @@ ("initial water content" :> c.w0) @@ ("cutoff pressure" :> c.cut) @@ ("operation" :> c.op)
+      doc == WorldOf(<<IF c.type = "oceanic plate" THEN Area(c.type, "f", Rect1000, 0, 400 * Km, <<TUniform(c.temp, "replace")>>, <<before, tian>>, <<>>, <<>>)
+                       ELSE LineFeat(c.type, <<TUniform(c.temp, "replace")>>, <<before, tian>>)>>)
+      x == IF c.type = "subducting plate" THEN 480 ELSE 500
+  IN B(<<"tian", c>>, <<"tian", c.type, Lithologies[c.lith]>>, doc,
+       << [op |-> "qtable", h |-> 1, dim |-> 3, props |-> <<PC(1)>>, let |-> <<>>, rowlet |-> << <<"want", want>> >>,
+           checks |-> <<[k |-> "tol", at |-> 0, var |-> "want", rel |-> Dec(1, -9), abs |-> Dec(1, -12)]>>,
+           rows |-> <<Row3(x, 500, 5 * Km), Row3(x, 500, 40 * Km), Row3(x, 500, 120 * Km), Row3(x, 500, 250 * Km), Row3(x, 500, 390 * Km)>>] >>)
+
 VARIABLE case
 Cases == ({"composition-uniform"} \X CompCase) \cup ({"grains-uniform"} \X GrainCase) \cup    ({"uniform-range"} \X URangeCase) \cup ({"smooth"} \X SmoothCase) \cup    ({"linear"} \X LinearCase) \cup ({"linear-varying"} \X LinVarCase) \cup ({"uniform"} \X UniformCase) \cup ({"adiabatic"} \X AdCase) \cup ({"chapman"} \X ChapCase)
-       \cup ({"cooling"} \X CoolCase) \cup ({"gaussian"} \X GaussCase) \cup ({"line-linear"} \X LineLinCase)
+       \cup ({"cooling"} \X CoolCase) \cup ({"gaussian"} \X GaussCase) \cup ({"line-linear"} \X LineLinCase) \cup ({"tian"} \X TianCase)
 Init == case \in Cases
 Next == UNCHANGED case
 Behaviour == CASE case[1] = "composition-uniform" -> CompB(case[2]) [] case[1] = "grains-uniform" -> GrainB(case[2]) [] case[1] = "linear" -> LinearB(case[2]) [] case[1] = "linear-varying" -> LinVarB(case[2]) [] case[1] = "uniform" -> UniformB(case[2]) [] case[1] = "adiabatic" -> AdB(case[2])
                [] case[1] = "chapman" -> ChapB(case[2]) [] case[1] = "cooling" -> CoolB(case[2]) [] case[1] = "gaussian" -> GaussB(case[2])
-               [] case[1] = "line-linear" -> LineLinB(case[2]) [] case[1] = "smooth" -> SmoothB(case[2]) [] case[1] = "uniform-range" -> URangeB(case[2])
+               [] case[1] = "line-linear" -> LineLinB(case[2]) [] case[1] = "smooth" -> SmoothB(case[2]) [] case[1] = "uniform-range" -> URangeB(case[2]) [] case[1] = "tian" -> TianB(case[2])
 Emit == PrintT(<<"B", ToJson(Behaviour)>>)
 =============================================================================
